@@ -386,7 +386,14 @@ pub fn replay_file(path: &str, quiet: bool) -> i32 {
         eprintln!("fsim: cannot parse {path}: {e}");
         std::process::exit(2)
     });
-    let out = if rf.from_seed { run_case(input_for(&rf.property, rf.thorough, rf.seed, rf.run_index)) } else { run_case(replay_input(&rf.case, &rf.sched, &rf.io)) };
+    // (a from-seed replay takes the case from the file - the generators may have changed since - and re-derives the
+    // two streams from (seed, run index) exactly as the batch did)
+    let out = if rf.from_seed {
+        let run_seed = mix2(rf.seed, rf.run_index);
+        run_case(RunInput { case: rf.case.clone(), sched: StreamSrc::Seed(mix2(run_seed, 1)), io: StreamSrc::Seed(mix2(run_seed, 2)) })
+    } else {
+        run_case(replay_input(&rf.case, &rf.sched, &rf.io))
+    };
     if let Some(e) = &out.harness_error {
         eprintln!("fsim: harness error during replay: {e}");
         return 2;
